@@ -24,7 +24,7 @@ ReqEntries(fr, fc) ==
 AllReqEntries(fr) == UNION {ReqEntries(fr, fc) : fc \in SupportedFC}
 AllRespEntries(fr) == UNION {RespEntries(fr, fc) : fc \in SupportedFC}
 TCPEntries == AllReqEntries("tcp") \cup AllRespEntries("tcp") \cup
-              {"ParseMBAPHeader", "LooksLikeModbusTCP", "LooksLikeModbusTCPAllow", "AsTCPErrorPacket"}
+              {"ParseMBAPHeader", "LooksLikeModbusTCP", "LooksLikeModbusTCPAllow", "AsTCPErrorPacket", "AssemblerReceiveRead"}
 RTUEntries == AllReqEntries("rtu") \cup AllRespEntries("rtu") \cup {"AsRTUErrorPacket"}
 
 \* constructor arguments (as the harness passes them) -> request record
